@@ -37,10 +37,91 @@ def run(chk):
            'of a body literal is unified with its column', min_instances=12)
   merge_and_product(chk, 'C01-R5')
 
+  chk.rule('C01-R6', 'composability: the SQL of an infix operator and of a '
+           'combine is one parenthesised group on every path out of '
+           'ConvertToSql (abstract interpretation with string skeletons)',
+           min_instances=2)
+  atomic_fragments(chk, 'C01-R6')
+
   chk.rule('C01-R4', 'several rules are combined with UNION ALL and no '
            'DISTINCT; GROUP BY is emitted only for distinct_vars',
            min_instances=3)
   union_all(chk, 'C01-R4')
+
+
+# ---------------------------------------------------------------------------
+def _atomic(sk):
+  """Skeleton is one parenthesised group or one FUNCTION(...) call form, so
+  it can be spliced into any operator context without changing its meaning."""
+  from sa import strshape, sqllex
+  text = strshape.as_str(sk).text(lambda h: 'X')
+  t = text.strip()
+  m = re.match(r'^[A-Za-z_][A-Za-z_0-9]*\s*\(', t)
+  if not (t.startswith('(') or m):
+    return False, text
+  if not t.endswith(')'):
+    return False, text
+  start = t.index('(')
+  st = sqllex.ScanState()
+  for i, ch in enumerate(t[start:]):
+    sqllex.scan(ch, st)
+    if st.error:
+      return False, text
+    if not st.stack and st.quote is None and start + i < len(t) - 1:
+      return False, text      # the first group closes before the end
+  return st.balanced(), text
+
+
+def atomic_fragments(chk, rid):
+  """Results of infix operators and combines are parenthesised on every path
+  before ConvertToSql returns them (the infix templates do not protect their
+  operands, so a bare `a + b` spliced into `- %s` or `%s || %s` re-associates)."""
+  from sa import strshape
+  from sa.absint import Interp, State, Sym
+  repo = chk.repo
+  fi = repo.func('expr_translate.QL.ConvertToSql')
+
+  def run_branch(stmts, label):
+    fn = ast.FunctionDef(name='branch', args=ast.arguments(
+        posonlyargs=[], args=[], kwonlyargs=[], kw_defaults=[], defaults=[]),
+        body=stmts, decorator_list=[], lineno=stmts[0].lineno, col_offset=0)
+
+    def call(node, st, interp):
+      t = call_tail(node)
+      if t in ('Infix', 'TranslateRule', 'Function'):
+        return Sym(t.upper())
+      r = strshape.call_hook(node, st, interp)
+      return r
+    it = Interp(fn, dict(call=call, expr=strshape.expr_hook,
+                         loop=lambda n, s: 'once'))
+    outs = [o for o in it.run(State()) if o.kind == 'return']
+    if not outs:
+      raise AnalysisError('ConvertToSql: %s branch has no return' % label)
+    bad = []
+    for o in outs:
+      ok, text = _atomic(o.value)
+      if not ok:
+        bad.append((text, '; '.join(o.state.trace)))
+    chk.ob(rid, not bad, None, '%s results are parenthesised on every path (%d)' % (label, len(outs)),
+           'a path returns the bare fragment `%s` (%s): spliced into a prefix '
+           'or infix template it re-associates, e.g. -(x + y) becomes - (x) + (y)'
+           % (bad[0] if bad else ('', '')), fi=fi, node=stmts[0])
+
+  infix_loops = [x for x in walk_local(fi.node) if isinstance(x, ast.For) and
+                 'built_in_infix_operators' in norm(x.iter)]
+  if not infix_loops:
+    raise AnalysisError('ConvertToSql: loop over built_in_infix_operators not found')
+  for l in infix_loops:
+    ifs = [x for x in l.body if isinstance(x, ast.If)]
+    if not ifs:
+      raise AnalysisError('ConvertToSql: infix dispatch not recognised')
+    run_branch(ifs[0].body, 'infix operator')
+  comb = [x for x in walk_local(fi.node) if isinstance(x, ast.If) and
+          isinstance(x.test, ast.Compare) and const_str(x.test.left) == 'combine' and
+          dotted(x.test.comparators[0]) == 'expression']
+  if not comb:
+    raise AnalysisError("ConvertToSql: 'combine' branch not found")
+  run_branch(comb[0].body, 'combine sub-query')
 
 
 # ---------------------------------------------------------------------------
